@@ -263,7 +263,11 @@ impl Substream {
             substream,
             codec,
             substream_id,
-            read_buffer: BytesMut::zeroed(1024),
+            read_buffer: BytesMut::zeroed(match codec {
+                // A fixed-size frame is read as a whole into this buffer.
+                ProtocolCodec::Identity(payload_size) => payload_size,
+                _ => 1024,
+            }),
             offset: 0usize,
             pending_frames: VecDeque::new(),
             current_frame_size: None,
